@@ -370,3 +370,38 @@ func nnf(e ast.Expr) ast.Expr {
 	}
 	return e
 }
+
+// matchStmts is wantStmts without the failure record.
+func (x *X) matchStmts(list []ast.Stmt, texts ...string) bool {
+	got := x.srcs(list)
+	if len(got) != len(texts) {
+		return false
+	}
+	for i := range texts {
+		ok := texts[i] == "*"
+		for _, alt := range strings.Split(texts[i], " ||| ") {
+			ok = ok || got[i] == alt
+		}
+		if !ok {
+			return false
+		}
+	}
+	return true
+}
+
+// isNonEmptyTest reports whether e says `<lenText> != 0` in one of its spellings
+// (`!= 0`, `> 0`, `>= 1`, `0 != …`, `0 < …`, `1 <= …`, `!(… == 0)`).
+func (x *X) isNonEmptyTest(e ast.Expr, lenText string) bool {
+	b, ok := nnf(e).(*ast.BinaryExpr)
+	if !ok {
+		return false
+	}
+	l, r, op := x.Src(b.X), x.Src(b.Y), b.Op
+	if r == lenText {
+		l, r, op = r, l, flip(op)
+	}
+	if l != lenText {
+		return false
+	}
+	return (r == "0" && (op == token.NEQ || op == token.GTR)) || (r == "1" && op == token.GEQ)
+}
